@@ -109,7 +109,26 @@ def _worker(job):
     def tables():
         return {k: getattr(sgs, a) for k, a in TABLE_ATTR.items()}
 
+    # first-use state of the module: every module-level scalar and every container that is empty right after import
+    # (lookup tables, "ready" flags, locks' companions ...) is put back by reset(), whatever the code under test calls it
+    _initial = {}
+    for _name, _v in list(vars(sgs).items()):
+        if _name.startswith("__"):
+            continue
+        if isinstance(_v, (bool, int, float, str, type(None))):
+            _initial[_name] = ("scalar", _v)
+        elif isinstance(_v, (dict, list, set)) and len(_v) == 0:
+            _initial[_name] = ("empty", _v)
+
     def reset():
+        for name, (kind, v0) in _initial.items():
+            if kind == "scalar":
+                if getattr(sgs, name, None) is not v0:
+                    setattr(sgs, name, v0)
+            else:
+                v0.clear()
+                if getattr(sgs, name, None) is not v0:
+                    setattr(sgs, name, v0)
         for t in tables().values():
             t.clear()
 
